@@ -1,4 +1,6 @@
 mod common;
+mod crash;
+mod c01;
 mod c02;
 mod c03;
 mod c04;
@@ -40,6 +42,7 @@ fn registry(id: &str) -> Option<(RunFn, ReplayFn)> {
         "C08" => Some((c08::run, c08::replay)),
         "C09" => Some((c09::run, c09::replay)),
         "C11" => Some((c11::run, c11::replay)),
+        "C01" => Some((c01::run, c01::replay)),
         "C12" => Some((c12::run, c12::replay)),
         "C13" => Some((c13::run, c13::replay)),
         "C14" => Some((c14::run, c14::replay)),
@@ -72,6 +75,7 @@ fn main() {
             ("C02", _) | ("C04", _) => c02::worker(fam, start, end, step, arg),
             ("C18", _) => c18::worker(fam, start, end, step, arg),
             ("C11", _) => c11::worker(fam, start, end, step, arg),
+            ("C01", _) => c01::worker(fam, start, end, step, arg),
             _ => panic!("unknown worker"),
         }
         return;
